@@ -11,7 +11,7 @@ META = {
                  "block_parameters_index is assigned before write_block(block); R18.7 a member-wise comparison of two values of one record type in the tools compares every data member (zero instances on the pinned tree; positive and negative control in tu/rule_controls.cpp); R18.3 each input is processed in its own try inside "
                  "the loop body in both passes, and the version check compares all three version members; R18.4 cdns-itemcount's "
                  "totals are sums of get_qr/aec/mm_count of each block returned before `end`, the per-block lines print those same "
-                 "calls; R18.5 a block is rewritten relative to its own earliest time and parameters (time preservation). R18.2 remap-unconditional: the index rewrite sits only under the lookup test. R18.3 reference-from-first-readable: the reference preamble is assigned under a flag lowered in the same place, not under the position in the input list. R18.3 version check decided by truth table over the three equalities; the reference preamble may be taken member by member when all three version members are taken. R18.2 also: remap-takes-mapped-value (the block gets ->second of the looked-up pair, ->first is the key = its old index) and write-only-before-end (the guard of write_block(block), evaluated three-valued with the flag handed to read_block() set, is false when the flag is true). R18.3 version-check is decided by the truth table over the three version equalities only (no textual shortcut). R18.4 after-end-test uses the same guard evaluation. R18.8 = R05.7 (read_block's end-of-blocks protocol).",
+                 "calls; R18.5 a block is rewritten relative to its own earliest time and parameters (time preservation). R18.2 remap-unconditional: the index rewrite sits only under the lookup test. R18.3 reference-from-first-readable: the reference preamble is assigned under a flag lowered in the same place, not under the position in the input list. R18.3 version check decided by truth table over the three equalities; the reference preamble may be taken member by member when all three version members are taken. R18.2 also: remap-takes-mapped-value (the block gets ->second of the looked-up pair, ->first is the key = its old index) and write-only-before-end (the guard of write_block(block), evaluated three-valued with the flag handed to read_block() set, is false when the flag is true). R18.3 version-check is decided by the truth table over the three version equalities only (no textual shortcut). R18.4 after-end-test uses the same guard evaluation. R18.8 = R05.7 (read_block's end-of-blocks protocol). R18.1 also: a counted loop of pass 1 that writes the remapping starts at index 0. R18.4 also: every local that takes a total is declared with the constant 0.",
     "explanation": "Structural necessary conditions over the two tool mains; equality of merged content with the inputs and the "
                    "text layout of the tools are not decided.",
     "trusted_base": ["clang 14 AST", "std::unordered_map::operator[] value-initialises a missing key"],
@@ -281,6 +281,20 @@ def check(run):
                    "the block's parameter index is set from ->first of the looked-up pair, which is the key the lookup was made with - the "
                    "index the block had in its source file: no block is remapped and blocks of later inputs refer to parameters of the first")
     run.floor("R18.1", 1, "remapping reads in pass 2")
+    # pass 1 registers every parameter set of an input: a counted loop that writes the remapping starts at index 0
+    for lp_ in ir.walk(mg["body"]):
+        if lp_.get("k") != "For" or not isinstance(lp_.get("init"), dict):
+            continue
+        writes_map = any(w2 and "block_parameters" in show(lp_.get("cond") if lp_.get("cond") is not None else lp_.get("c") or {}) for n2, w2, g2, par2, l2 in subs if any(n2 is y for y in ir.walk(lp_.get("body"))))
+        if not writes_map:
+            continue
+        iv_ = [v_ for d_ in ir.walk(lp_["init"]) if d_.get("k") == "Decl" for v_ in d_.get("vars", []) if v_.get("init") is not None]
+        if len(iv_) == 1 and const_value(iv_[0]["init"]) is not None:
+            z_ = const_value(iv_[0]["init"]) == 0
+            run.ob("R18.1", "cdns_merge:registration-from-index-0@%s" % lp_.get("l", 0), z_, mg, lp_.get("l", 0),
+                   "every parameter set of the input, from index 0 on, gets an entry in the remapping" if z_ else
+                   "the loop over the input's parameter sets starts at %s: blocks that use the sets before that have no entry in the remapping and "
+                   "the whole input is dropped with \"Unknown block parameters index\"" % const_value(iv_[0]["init"]))
 
     # ---------------- R18.2 remap before write
     order = {id(x): i for i, x in enumerate(ir.walk(mg["body"]))}
@@ -487,6 +501,15 @@ def check(run):
             p = path(n_["lhs"])
             if p and len(p) == 1 and p[0].startswith("l:"):
                 all_adds.append((p[0], counted(n_["rhs"]), n_))
+    # a total starts at zero: the declaration of every local that takes such a sum is initialised with the constant 0
+    for tv_ in sorted(set(a[0] for a in all_adds)):
+        for d_ in ir.walk(ic["body"]):
+            if d_.get("k") == "Decl":
+                for v_ in d_.get("vars", []):
+                    if "l:%s#%s" % (v_.get("n"), v_.get("id")) == tv_ and v_.get("init") is not None and const_value(v_["init"]) is not None:
+                        z_ = const_value(v_["init"]) == 0
+                        run.ob("R18.4", "cdns_itemcount:%s:starts-at-zero" % tv_.split("#")[0][2:], z_, ic, d_.get("l", 0),
+                               "the total starts at 0" if z_ else "the total starts at %s: the reported count is off by that for every file" % const_value(v_["init"]))
     total_var = {}
     if not all_adds:
         # totals kept some other way (a struct with its own operator+=, std::accumulate, ...): not understood, no verdict
